@@ -68,9 +68,9 @@ func vNeutralCallbacks(mask int) StoreCallbacks {
 }
 
 type vRelSide struct {
-	s *Store
-	c *Collection
-	f *vFile
+	s  *Store
+	c  *Collection
+	f  *vFile
 	cb StoreCallbacks
 }
 
